@@ -44,7 +44,7 @@ func actorText() *rapid.Generator[string] {
 func genCDXJSON(t *rapid.T) genDoc {
 	g := genDoc{Kind: "cyclonedx", Resolving: true}
 	ver := rapid.SampledFrom([]string{"1.3", "1.4", "1.5"}).Draw(t, "ver")
-	g.Format = formats.Format("application/vnd.cyclonedx+json;version=" + ver)
+	g.Format = map[string]formats.Format{"1.3": formats.CDX13JSON, "1.4": formats.CDX14JSON, "1.5": formats.CDX15JSON}[ver]
 	refPool := rapid.SliceOfNDistinct(hx.CDXID(), 3, 8, rapid.ID[string]).Draw(t, "refpool")
 	dupMode := rapid.IntRange(0, 3).Draw(t, "dups") == 0
 	used := map[string]bool{}
@@ -318,8 +318,13 @@ func distinctDeclared(ids []string) bool {
 }
 
 func parseAuto(data []byte) (*sbom.Document, error) { return readDoc(data) }
+// parseAs parses with the format stated explicitly and everything else as the reader's own defaults (a copy of the
+// reader's option set with the format filled in: the comparison with auto-detection must differ in the format only).
 func parseAs(data []byte, f formats.Format) (*sbom.Document, error) {
-	return reader.New().ParseStreamWithOptions(bytes.NewReader(data), &reader.Options{Format: f})
+	r := reader.New()
+	o := *r.Options
+	o.Format = f
+	return r.ParseStreamWithOptions(bytes.NewReader(data), &o)
 }
 
 func c05Property(t *rapid.T) {
@@ -495,9 +500,26 @@ func kf04Witness() bool {
 	return hx.WellFormed(doc.NodeList, false) != nil
 }
 
+// KF-06: the SPDX parser makes no node for a snippet, yet keeps relationships that name one: the edge endpoint is
+// not a node although the input declares the snippet.
+func kf06Witness() bool {
+	data := `{"spdxVersion":"SPDX-2.3","dataLicense":"CC0-1.0","SPDXID":"SPDXRef-DOCUMENT","name":"d","documentNamespace":"https://example.com/kf06",
+	 "creationInfo":{"creators":["Tool: t"],"created":"2024-01-02T03:04:05Z"},
+	 "files":[{"fileName":"./a.c","SPDXID":"SPDXRef-f","checksums":[{"algorithm":"SHA1","checksumValue":"da39a3ee5e6b4b0d3255bfef95601890afd80709"}]}],
+	 "snippets":[{"SPDXID":"SPDXRef-Snippet-1","snippetFromFile":"SPDXRef-f","name":"s",
+	   "ranges":[{"startPointer":{"offset":1,"reference":"SPDXRef-f"},"endPointer":{"offset":9,"reference":"SPDXRef-f"}}]}],
+	 "relationships":[{"spdxElementId":"SPDXRef-DOCUMENT","relationshipType":"DESCRIBES","relatedSpdxElement":"SPDXRef-f"},
+	   {"spdxElementId":"SPDXRef-f","relationshipType":"CONTAINS","relatedSpdxElement":"SPDXRef-Snippet-1"}]}`
+	doc, err := readDoc([]byte(data))
+	if err != nil {
+		return false
+	}
+	return hx.WellFormed(doc.NodeList, false) != nil
+}
+
 func TestC05Findings(t *testing.T) {
 	hx.Eval()
-	runFindings(t, "C05", map[string]func() bool{"KF-04": kf04Witness})
+	runFindings(t, "C05", map[string]func() bool{"KF-04": kf04Witness, "KF-06": kf06Witness})
 }
 
 // TestC05Real: real SBOM files, re-encoded (white space, member order, escapes), must parse to the same document.
@@ -631,7 +653,7 @@ func c05RealMutated(data []byte, seed int) string {
 
 // refsResolve: every reference of the document (CycloneDX dependencies; SPDX relationships, documentDescribes,
 // hasFiles) names an element the document declares, and the SPDX document element occurs only as the source of
-// DESCRIBES (KF-04). Conservative: anything unexpected answers false (then closedness is not asserted).
+// DESCRIBES (KF-04), and there are no snippets (KF-06). Conservative: anything unexpected answers false (then closedness is not asserted).
 func refsResolve(data []byte) bool {
 	var top map[string]any
 	if json.Unmarshal(data, &top) != nil {
@@ -655,6 +677,11 @@ func refsResolve(data []byte) bool {
 		}
 	}
 	collect(top)
+	// (KF-06) snippets are declared elements for which the parser makes no node: a document that has any is set aside
+	if len(jsonArr(top["snippets"])) > 0 {
+		hx.Excluded("spdx_document_with_snippets(KF-06)")
+		return false
+	}
 	str := func(v any) (string, bool) { s, ok := v.(string); return s, ok }
 	for _, d := range jsonArr(top["dependencies"]) {
 		dm := jsonObj(d)
